@@ -339,7 +339,7 @@ var c20Queue = pbt.Register(pbt.Prop[C20Queue]{
 		}
 		return len(c.Producers) >= 2 && len(c.Consumers) >= 2 && (c.ConsumersFirst || items > len(c.Consumers)), labels, nil
 	},
-	Quick: 6400, Thorough: 320000,
+	Quick: 6400, Thorough: 120000,
 })
 
 func TestC20Queue(t *testing.T) { pbt.Run(t, c20Queue) }
@@ -546,7 +546,7 @@ var c20Pools = pbt.Register(pbt.Prop[C20Pools]{
 	Classify: func(c C20Pools) (bool, []string, []byte) {
 		return true, []string{fmt.Sprintf("pools_thr_%d", c.Threshold)}, nil
 	},
-	Quick: 480, Thorough: 16000,
+	Quick: 480, Thorough: 8000,
 })
 
 func TestC20Pools(t *testing.T) { pbt.Run(t, c20Pools) }
@@ -636,7 +636,7 @@ var c20Players = pbt.Register(pbt.Prop[C20Players]{
 	Classify: func(c C20Players) (bool, []string, []byte) {
 		return len(c.Goroutines) > c.Cap, []string{fmt.Sprintf("playerlist_cap_%d", c.Cap)}, nil
 	},
-	Quick: 3200, Thorough: 160000,
+	Quick: 3200, Thorough: 60000,
 })
 
 func TestC20Players(t *testing.T) { pbt.Run(t, c20Players) }
@@ -701,7 +701,7 @@ func c20CheckBounded(c C20Bounded) *pbt.Violation {
 var c20Bounded = pbt.Register(pbt.Prop[C20Bounded]{
 	Name: "C20Bounded",
 	Gen: func(t *rapid.T) C20Bounded {
-		c := C20Bounded{Cap: rapid.SampledFrom([]int{1, 2, 4, 64}).Draw(t, "cap"), Producers: rapid.IntRange(2, 8).Draw(t, "producers"), Rounds: pbt.Pick(1500, 6000)}
+		c := C20Bounded{Cap: rapid.SampledFrom([]int{1, 2, 4, 64}).Draw(t, "cap"), Producers: rapid.IntRange(2, 8).Draw(t, "producers"), Rounds: pbt.Pick(1500, 3000)}
 		c.Free = rapid.IntRange(1, 2).Draw(t, "free")
 		if c.Free > c.Cap {
 			c.Free = c.Cap
